@@ -96,7 +96,7 @@ func c07Run(c *fw.Case, env *fw.Env) *fw.Obs {
 	c.P(&p)
 	rng := c.Rand()
 	src := mon.NewMemStore()
-	h, err := buildHistory(src, rng, histOpts{N: p.N, BaseRows: p.BaseRows})
+	h, err := buildHistory(src, rng, histOpts{N: p.N, BaseRows: p.BaseRows, Rekey: true})
 	if err != nil {
 		o.Status = "inconclusive"
 		o.Note = err.Error()
